@@ -4,7 +4,7 @@
    stored filesystem is untouched.  Hypotheses about the overlay are explicit (parent directory
    present, name absent) and shown satisfiable in Props/C06.v. *)
 From AF Require Import Lib.Bytes Lib.Path Lib.Ops Gen.Consts Model.MemFile Model.MemFs Model.ReadOnly
-  Model.Union Model.Cow Proofs.MemFsBasics.
+  Model.Union Model.Cow Proofs.MemFsBasics Proofs.PathProof.
 Local Open Scope Z_scope.
 
 (* ---------------- small list facts ---------------- *)
@@ -43,6 +43,8 @@ Proof.
   revert i j. induction l as [|x l IH]; intros i j Hn; [destruct i; reflexivity|].
   destruct i, j; cbn [list_set nth_error]; try reflexivity; [contradiction|]. apply IH. congruence.
 Qed.
+Lemma cu_list_set_length {A} (l : list A) i a : length (list_set i a l) = length l.
+Proof. revert i. induction l as [|x l IH]; intros i; [destruct i; reflexivity|]. destruct i; cbn; [reflexivity | now rewrite IH]. Qed.
 Lemma nth_error_app_last {A} (l : list A) x : nth_error (l ++ [x]) (length l) = Some x.
 Proof. rewrite nth_error_app2 by lia. now rewrite Nat.sub_diag. Qed.
 Lemma nth_error_app_old {A} (l : list A) x i y : nth_error l i = Some y -> nth_error (l ++ [x]) i = Some y.
@@ -184,6 +186,9 @@ Lemma layer_stat_ok s p d dn : lookup s (normalize_path p) = Some d -> get_node 
   m_step s (Stat p) = (tick s, RInfo (finfo_of dn)).
 Proof. intros Hl Hn. rewrite m_step_tick. cbn [m_step_raw]. unfold m_stat. now rewrite Hl, Hn. Qed.
 
+Lemma stat_missing s p : lookup s (normalize_path p) = None -> m_step s (Stat p) = (tick s, RErr (EW KNotExist)).
+Proof. intros Hl. rewrite m_step_tick. cbn [m_step_raw]. unfold m_stat. now rewrite Hl. Qed.
+
 (* the key under which registerWithParent looks for the parent of a node called nn *)
 Definition parent_key (nn : str) : str := normalize_path (clean (fst (path_split nn))).
 
@@ -269,28 +274,81 @@ End Copy.
 Lemma finfo_of_file nd : ndir nd = false -> fi_size (finfo_of nd) = zlen (ndata nd) /\ fi_mtime (finfo_of nd) = nmtime nd.
 Proof. unfold finfo_of. intros ->. now split. Qed.
 
-(* ---------------- copyToLayer, MemMapFs on both sides ---------------- *)
-Theorem copy_up_mem sb sl name f nd d dn pp pn :
+(* ---------------- copyFile = directory phase, then the tail from Create on ---------------- *)
+Section Tail.
+Context {B L : Type} (bstep : B -> op -> B * res) (lstep : L -> op -> L * res).
+Definition copy_tail (sb : B) (sl1 : L) (name : str) (bh : nat) : B * L * option err :=
+  match lstep sl1 (Create name) with
+  | (sl2, RHandle lh) =>
+    let '(sb1, st) := bstep sb (HStat bh) in
+    let fuel := match st with RInfo fi => S (S (Z.to_nat (fi_size fi))) | _ => 2%nat end in
+    let '(sb2, sl3, n, cerr) := io_copy bstep lstep fuel sb1 sl2 bh lh 0 in
+    match cerr with
+    | Some e =>
+      let sl4 := fst (lstep sl3 (Remove name)) in
+      let sl5 := fst (lstep sl4 (HClose lh)) in (sb2, sl5, Some e)
+    | None =>
+      let '(sb3, st2) := bstep sb2 (HStat bh) in
+      match st2 with
+      | RInfo bfi =>
+        if negb (fi_size bfi =? n) then
+          let sl4 := fst (lstep sl3 (Remove name)) in
+          let sl5 := fst (lstep sl4 (HClose lh)) in (sb3, sl5, Some (E KEIO))
+        else
+          match lstep sl3 (HClose lh) with
+          | (sl4, ROk) =>
+            match lstep sl4 (Chtimes name (fi_mtime bfi)) with
+            | (sl5, ROk) => (sb3, sl5, None)
+            | (sl5, r) => (sb3, sl5, match res_err r with Some e => Some e | None => Some (E KOther) end)
+            end
+          | (sl4, r) =>
+            let sl5 := fst (lstep sl4 (Remove name)) in
+            let sl6 := fst (lstep sl5 (HClose lh)) in
+            (sb3, sl6, match res_err r with Some e => Some e | None => Some (E KOther) end)
+          end
+      | _ =>
+        let sl4 := fst (lstep sl3 (Remove name)) in
+        let sl5 := fst (lstep sl4 (HClose lh)) in (sb3, sl5, Some (E KEIO))
+      end
+    end
+  | (sl2, r) => (sb, sl2, match res_err r with Some e => Some e | None => Some (E KOther) end)
+  end.
+
+Lemma copy_file_tail sb sl name bh : copy_file bstep lstep sb sl name bh =
+  let dir := path_dir name in
+  let '(sl0, ex) := l_exists lstep sl dir in
+  match ex with
+  | inr e => (sb, sl0, Some e)
+  | inl exists_ =>
+    let '(sl1, mk) := if exists_ then (sl0, None)
+                      else match lstep sl0 (MkdirAll dir 511) with
+                           | (s, ROk) => (s, None)
+                           | (s, r) => (s, match res_err r with Some e => Some e | None => Some (E KOther) end)
+                           end in
+    match mk with
+    | Some e => (sb, sl1, Some e)
+    | None => copy_tail sb sl1 name bh
+    end
+  end.
+Proof. reflexivity. Qed.
+End Tail.
+
+(* the overlay can take a new regular file called nn: the name is free and the entry
+   registerWithParent will look for exists *)
+Definition create_ready (s : mst) (nn : str) : Prop :=
+  lookup s nn = None /\ parent_key nn <> nn /\
+  exists pp pn, lookup s (parent_key nn) = Some pp /\ get_node s pp = Some pn.
+
+Lemma copy_tail_mem sb1 sl1 name f nd bh :
   let nn := normalize_path name in
-  (* the base holds a regular file at name *)
-  lookup sb nn = Some f -> get_node sb f = Some nd -> ndir nd = false ->
-  (* the overlay has the directory part of name (so copyFile does not MkdirAll), lacks name,
-     and the entry registerWithParent will look for exists *)
-  lookup sl (normalize_path (path_dir name)) = Some d -> get_node sl d = Some dn ->
-  lookup sl nn = None ->
-  parent_key nn <> nn -> lookup sl (parent_key nn) = Some pp -> get_node sl pp = Some pn ->
-  exists sb' sl', copy_to_layer m_step m_step sb sl name = (sb', sl', None) /\
-    fs_view sb' = fs_view sb /\
-    LF nn (length (mheap sl)) sl' (ndata nd) (Some (nmtime nd)).
+  BI f nd bh sb1 0 -> ndir nd = false -> create_ready sl1 nn ->
+  exists sb' sl', copy_tail m_step m_step sb1 sl1 name bh = (sb', sl', None) /\
+    fs_view sb' = fs_view sb1 /\ BI f nd bh sb' (zlen (ndata nd)) /\
+    LF nn (length (mheap sl1)) sl' (ndata nd) (Some (nmtime nd)).
 Proof.
-  intros nn Hbl Hbn Hbd Hdl Hdn Hno Hpk Hpl Hpn.
-  unfold copy_to_layer, copy_to_layer_with.
-  destruct (base_open sb name f nd Hbl Hbn) as [sb1 [Eo [Hb1 Hv1]]]. rewrite Eo.
-  set (bh := length (mhandles sb)) in *.
-  unfold copy_file, l_exists. rewrite (layer_stat_ok sl (path_dir name) d dn Hdl Hdn).
-  destruct (layer_create (tick sl) name pp pn Hno Hpk Hpl Hpn) as [sl2 [Ec Hl2]]. fold nn in Hl2.
-  rewrite Ec. cbn [tick mhandles mheap] in Hl2 |- *.
-  set (lh := length (mhandles sl)) in *. set (g := length (mheap sl)) in *.
+  intros nn Hb1 Hbd [Hno [Hpk [pp [pn [Hpl Hpn]]]]]. unfold copy_tail.
+  destruct (layer_create sl1 name pp pn Hno Hpk Hpl Hpn) as [sl2 [Ec Hl2]]. fold nn in Hl2. rewrite Ec.
+  set (lh := length (mhandles sl1)) in *. set (g := length (mheap sl1)) in *.
   destruct (base_hstat f nd bh sb1 0 Hb1) as [sb2 [Es [Hb2 Hv2]]]. rewrite Es.
   destruct (finfo_of_file nd Hbd) as [Hsz Hmt]. rewrite Hsz.
   assert (Hz : 0 <= zlen (ndata nd)) by (unfold zlen; lia).
@@ -301,9 +359,96 @@ Proof.
   assert (En : zlen (ndata nd) =? 0 + (zlen (ndata nd) - 0) = true) by (apply Z.eqb_eq; lia). rewrite En. cbn [negb].
   destruct (layer_close nn g lh sl3 _ _ Hl3) as [sl4 [Ecl Hl4]]. rewrite Ecl.
   destruct (layer_chtimes nn g sl4 _ name (fi_mtime (finfo_of nd)) eq_refl Hl4) as [sl5 [Ect Hl5]]. rewrite Ect.
-  exists (fst (m_step sb4 (HClose bh))), sl5. split; [reflexivity|]. split.
-  - rewrite (base_close f nd bh sb4 _ Hb4). congruence.
-  - rewrite Hmt in Hl5. exact Hl5.
+  exists sb4, sl5. split; [reflexivity|]. split; [congruence|]. split; [exact Hb4|].
+  rewrite Hmt in Hl5. exact Hl5.
+Qed.
+
+(* MkdirAll of a directory the overlay lacks whose own parent entry exists: one new directory node *)
+Lemma layer_mkdirall_new s dir perm pp pn :
+  let dk := normalize_path dir in
+  lookup s dk = None -> parent_key dk <> dk -> lookup s (parent_key dk) = Some pp -> get_node s pp = Some pn ->
+  exists s', m_step s (MkdirAll dir perm) = (s', ROk) /\
+    lookup s' dk = Some (length (mheap s)) /\ (exists n, get_node s' (length (mheap s)) = Some n) /\
+    (forall k, k <> dk -> lookup s' k = lookup s k) /\
+    length (mheap s') = S (length (mheap s)) /\ mhandles s' = mhandles s.
+Proof.
+  intros dk Hno Hpk Hpl Hpn. rewrite m_step_tick. cbn [m_step_raw]. unfold m_mkdirall, m_mkdir. fold dk. rewrite Hno.
+  cbn [alloc_node].
+  set (g := length (mheap s)). set (pm := Z.land perm chmod_bits).
+  set (n0 := with_mode (Z.lor mode_dir pm) (new_dir dk (mclock s))).
+  set (s1 := mkM (mdata s) (mheap s ++ [n0]) (mhandles s) (mclock s)).
+  set (s2 := set_data s1 (alist_set dk g (mdata s1))).
+  assert (Hg2 : get_node s2 g = Some n0) by (unfold get_node, s2, s1, g; cbn [mheap set_data]; apply nth_error_app_last).
+  assert (Hname : node_name s2 g = dk) by (unfold node_name; now rewrite Hg2).
+  assert (Hfp : find_parent s2 g = Some pp).
+  { unfold find_parent, lockfree_open, lookup. rewrite Hname. fold (parent_key dk). unfold s2, s1. cbn [mdata set_data].
+    rewrite alist_get_set_neq by congruence. exact Hpl. }
+  assert (Hpp2 : get_node s2 pp = Some pn) by (unfold get_node, s2, s1; cbn [mheap set_data]; now apply nth_error_app_old).
+  assert (Hne : pp <> g) by (apply nth_error_lt in Hpn; unfold g; lia).
+  unfold reg. cbn [register]. rewrite Hfp. unfold add_kid. rewrite (upd_node_some _ _ _ _ Hpp2).
+  set (s3 := set_node s2 pp _).
+  assert (Hl3 : lookup s3 dk = Some g) by (unfold lookup, s3, set_node, s2, s1; cbn [mdata set_data]; apply alist_get_set_eq).
+  assert (Hg3 : get_node s3 g = Some n0) by (unfold s3; rewrite get_node_set_node_neq by exact Hne; exact Hg2).
+  unfold set_file_mode. replace (normalize_path dk) with dk by (unfold dk; now rewrite PathProof.normalize_idempotent).
+  rewrite Hl3.
+  rewrite (upd_node_some _ _ _ _ Hg3). cbn [fst snd].
+  eexists. split; [reflexivity|]. split; [exact Hl3|]. split.
+  - eexists. unfold tick, get_node. cbn [mheap]. apply (get_node_set_node_eq _ _ _ _ Hg3).
+  - split; [|split].
+    + intros k Hk. unfold lookup, tick, set_node, s3, set_node, s2, s1. cbn [mdata set_data]. apply alist_get_set_neq. congruence.
+    + unfold tick, set_node, s3, set_node, s2, s1. cbn [mheap set_data]. rewrite !cu_list_set_length, app_length. cbn. lia.
+    + reflexivity.
+Qed.
+
+(* ---------------- copyToLayer, MemMapFs on both sides ---------------- *)
+(* the two overlay situations covered: (A) the directory part of the name exists in the overlay;
+   (B) it does not, but ITS parent entry does (copyFile then creates one directory level, e.g. the
+   overlay has only "/" and the file is /d/f) *)
+Definition overlay_has_dir (s : mst) (name : str) : Prop :=
+  (exists d dn, lookup s (normalize_path (path_dir name)) = Some d /\ get_node s d = Some dn) /\
+  create_ready s (normalize_path name).
+Definition overlay_lacks_dir (s : mst) (name : str) : Prop :=
+  let dk := normalize_path (path_dir name) in
+  let nn := normalize_path name in
+  lookup s dk = None /\ parent_key dk <> dk /\
+  (exists pp pn, lookup s (parent_key dk) = Some pp /\ get_node s pp = Some pn) /\
+  lookup s nn = None /\ parent_key nn = dk /\ dk <> nn.
+Definition copy_up_ready (s : mst) (name : str) : Prop := overlay_has_dir s name \/ overlay_lacks_dir s name.
+
+Lemma copy_up_ready_tick s name : copy_up_ready s name -> copy_up_ready (tick s) name.
+Proof. intros H. exact H. Qed.
+
+Theorem copy_up_mem sb sl name f nd :
+  let nn := normalize_path name in
+  (* the base holds a regular file at name *)
+  lookup sb nn = Some f -> get_node sb f = Some nd -> ndir nd = false ->
+  copy_up_ready sl name ->
+  exists sb' sl' g, copy_to_layer m_step m_step sb sl name = (sb', sl', None) /\
+    fs_view sb' = fs_view sb /\
+    LF nn g sl' (ndata nd) (Some (nmtime nd)).
+Proof.
+  intros nn Hbl Hbn Hbd Hready.
+  unfold copy_to_layer, copy_to_layer_with.
+  destruct (base_open sb name f nd Hbl Hbn) as [sb1 [Eo [Hb1 Hv1]]]. rewrite Eo.
+  set (bh := length (mhandles sb)) in *.
+  rewrite copy_file_tail. cbv zeta. unfold l_exists.
+  destruct Hready as [[[d [dn [Hdl Hdn]]] Hcr] | [Hdno [Hdpk [[pp [pn [Hdpl Hdpn]]] [Hno [Hpk Hne]]]]]].
+  - (* A *)
+    rewrite (layer_stat_ok sl (path_dir name) d dn Hdl Hdn). cbn [is_not_exist].
+    destruct (copy_tail_mem sb1 (tick sl) name f nd bh Hb1 Hbd Hcr) as [sb' [sl' [Et [Hv [Hb' Hlf]]]]].
+    rewrite Et. exists (fst (m_step sb' (HClose bh))), sl', (length (mheap (tick sl))).
+    split; [reflexivity|]. split; [|exact Hlf]. rewrite (base_close f nd bh sb' _ Hb'). congruence.
+  - (* B *)
+    rewrite (stat_missing sl (path_dir name) Hdno). cbn [is_not_exist ek EW].
+    destruct (layer_mkdirall_new (tick sl) (path_dir name) 511 pp pn Hdno Hdpk Hdpl Hdpn) as [sl1 [Em [Hd1 [[dn1 Hdn1] [Hoth [Hlen Hh]]]]]].
+    rewrite Em.
+    assert (Hcr : create_ready sl1 nn).
+    { unfold nn. split; [rewrite Hoth; [exact Hno | intros Hx; apply Hne; symmetry; exact Hx]|].
+      split; [rewrite Hpk; exact Hne|].
+      exists (length (mheap (tick sl))), dn1. split; [|exact Hdn1]. rewrite Hpk. exact Hd1. }
+    destruct (copy_tail_mem sb1 sl1 name f nd bh Hb1 Hbd Hcr) as [sb' [sl' [Et [Hv [Hb' Hlf]]]]].
+    rewrite Et. exists (fst (m_step sb' (HClose bh))), sl', (length (mheap sl1)).
+    split; [reflexivity|]. split; [|exact Hlf]. rewrite (base_close f nd bh sb' _ Hb'). congruence.
 Qed.
 
 (* what the overlay then answers through its API *)
@@ -341,8 +486,6 @@ Lemma fs_view_tick s : fs_view (tick s) = fs_view s. Proof. reflexivity. Qed.
 Lemma LF_tick nn g s d mt : LF nn g s d mt -> LF nn g (tick s) d mt.
 Proof. intros H. exact H. Qed.
 
-Lemma stat_missing s p : lookup s (normalize_path p) = None -> m_step s (Stat p) = (tick s, RErr (EW KNotExist)).
-Proof. intros Hl. rewrite m_step_tick. cbn [m_step_raw]. unfold m_stat. now rewrite Hl. Qed.
 
 Section LayerMore.
 Variables (nn : str) (g : nat).
@@ -423,36 +566,35 @@ Proof. reflexivity. Qed.
 Section CowMem.
 Notation cowmm := (cow_step m_step m_step).
 
+Lemma copy_up_ready_absent s name : copy_up_ready s name -> lookup s (normalize_path name) = None.
+Proof. intros [[_ [H _]] | [_ [_ [_ [H _]]]]]; exact H. Qed.
+
 (* OpenFile(O_RDWR) through the union on a file only the base has: the file is copied up with all
    its bytes and its mtime, the returned handle is a writable overlay handle at offset 0 *)
-Theorem cow_mem_open_rdwr_copies_up sb sl tbl name perm f nd d dn pp pn :
+Theorem cow_mem_open_rdwr_copies_up sb sl tbl name perm f nd :
   let nn := normalize_path name in
   lookup sb nn = Some f -> get_node sb f = Some nd -> ndir nd = false ->
-  lookup sl (normalize_path (path_dir name)) = Some d -> get_node sl d = Some dn ->
-  lookup sl nn = None ->
-  parent_key nn <> nn -> lookup sl (parent_key nn) = Some pp -> get_node sl pp = Some pn ->
-  exists sb' sl' lh, cowmm (sb, sl, tbl) (OpenFile name o_rdwr perm) = ((sb', sl', tbl ++ [HL lh]), RHandle (length tbl)) /\
-    fs_view sb' = fs_view sb /\ LI nn (length (mheap sl)) lh sl' (ndata nd) 0.
+  copy_up_ready sl name ->
+  exists sb' sl' lh g, cowmm (sb, sl, tbl) (OpenFile name o_rdwr perm) = ((sb', sl', tbl ++ [HL lh]), RHandle (length tbl)) /\
+    fs_view sb' = fs_view sb /\ LI nn g lh sl' (ndata nd) 0.
 Proof.
-  intros nn Hbl Hbn Hbd Hdl Hdn Hno Hpk Hpl Hpn. cbn [cow_step]. unfold cow_openfile.
+  intros nn Hbl Hbn Hbd Hready. cbn [cow_step]. unfold cow_openfile.
   rewrite (is_base_file_base_only m_step m_step sb sl name (tick sl) (RErr (EW KNotExist)) (tick sb) (finfo_of nd));
-    [| now apply stat_missing | reflexivity | exact (layer_stat_ok sb name f nd Hbl Hbn)].
+    [| apply stat_missing; now apply copy_up_ready_absent | reflexivity | exact (layer_stat_ok sb name f nd Hbl Hbn)].
   change (negb (Z.land o_rdwr cow_mask =? 0)) with true. cbv iota.
-  destruct (copy_up_mem (tick sb) (tick sl) name f nd d dn pp pn Hbl Hbn Hbd Hdl Hdn Hno Hpk Hpl Hpn) as [sb' [sl' [Ec [Hv Hlf]]]].
+  destruct (copy_up_mem (tick sb) (tick sl) name f nd Hbl Hbn Hbd (copy_up_ready_tick _ _ Hready)) as [sb' [sl' [g [Ec [Hv Hlf]]]]].
   rewrite Ec. unfold open_layer.
-  destruct (layer_openfile_rdwr nn (length (mheap sl)) sl' _ _ name perm eq_refl Hlf) as [sl2 [Eo Hli]].
-  rewrite Eo. cbn [alloc_ch ret]. exists sb', sl2, (length (mhandles sl')). split; [reflexivity|]. split; [exact Hv | exact Hli].
+  destruct (layer_openfile_rdwr nn g sl' _ _ name perm eq_refl Hlf) as [sl2 [Eo Hli]].
+  rewrite Eo. cbn [alloc_ch ret]. exists sb', sl2, (length (mhandles sl')), g. split; [reflexivity|]. split; [exact Hv | exact Hli].
 Qed.
 
 (* the whole story: write b over the beginning of a base-only file through the union, close,
    reopen through the union and read: the new bytes followed by ALL the old remaining bytes;
    the base still holds what it held *)
-Theorem cow_mem_partial_write_read_back sb sl tbl name perm f nd d dn pp pn b :
+Theorem cow_mem_partial_write_read_back sb sl tbl name perm f nd b :
   let nn := normalize_path name in
   lookup sb nn = Some f -> get_node sb f = Some nd -> ndir nd = false ->
-  lookup sl (normalize_path (path_dir name)) = Some d -> get_node sl d = Some dn ->
-  lookup sl nn = None ->
-  parent_key nn <> nn -> lookup sl (parent_key nn) = Some pp -> get_node sl pp = Some pn ->
+  copy_up_ready sl name ->
   0 < zlen b <= zlen (ndata nd) ->
   let i := length tbl in
   let result := b ++ skipn (Z.to_nat (zlen b)) (ndata nd) in
@@ -461,12 +603,12 @@ Theorem cow_mem_partial_write_read_back sb sl tbl name perm f nd d dn pp pn b :
   (exists fi, rs = [RHandle i; RCount (zlen b) None; ROk; RInfo fi; RHandle (S i); RData result None] /\
               fi_dir fi = false /\ fi_size fi = zlen (ndata nd)) /\
   fs_view (fst (fst st)) = fs_view sb /\
-  LF nn (length (mheap sl)) (snd (fst st)) result None.
+  exists g, LF nn g (snd (fst st)) result None.
 Proof.
-  intros nn Hbl Hbn Hbd Hdl Hdn Hno Hpk Hpl Hpn Hb i result.
-  destruct (cow_mem_open_rdwr_copies_up sb sl tbl name perm f nd d dn pp pn Hbl Hbn Hbd Hdl Hdn Hno Hpk Hpl Hpn)
-    as [sb1 [sl1 [lh [E1 [Hv1 Hl1]]]]]. fold nn in Hl1.
-  set (g := length (mheap sl)) in *. set (tbl1 := tbl ++ [HL lh]).
+  intros nn Hbl Hbn Hbd Hready Hb i result.
+  destruct (cow_mem_open_rdwr_copies_up sb sl tbl name perm f nd Hbl Hbn Hbd Hready)
+    as [sb1 [sl1 [lh [g [E1 [Hv1 Hl1]]]]]]. fold nn in Hl1.
+  set (tbl1 := tbl ++ [HL lh]).
   assert (Hi : nth_error tbl1 i = Some (HL lh)) by apply nth_error_app_last.
   (* Write *)
   destruct (layer_write_at nn g lh sl1 _ 0 b Hl1 ltac:(lia) ltac:(lia)) as [sl2 [E2 Hl2]].
@@ -511,6 +653,27 @@ Proof.
   split; [exists fi; now repeat split|]. split; [exact Hv1|].
   (* the last Read only moved the handle *)
   destruct Hl7 as [Hl [n [Hn Hrest]]]. rewrite m_step_tick. cbn [m_step_raw fst]. unfold m_hop. rewrite Hh7. cbn [href]. rewrite Hn.
-  destruct (f_read (ndata n) _ _) as [h' r']. cbn [fst]. split; [exact Hl|]. exists n. split; [exact Hn | exact Hrest].
+  destruct (f_read (ndata n) _ _) as [h' r']. cbn [fst]. exists g. split; [exact Hl|]. exists n. split; [exact Hn | exact Hrest].
 Qed.
 End CowMem.
+
+(* the predicates used in the statements, spelled out *)
+Lemma copy_up_ready_meaning s name :
+  copy_up_ready s name <->
+  let dk := normalize_path (path_dir name) in
+  let nn := normalize_path name in
+  ((exists d dn, lookup s dk = Some d /\ get_node s d = Some dn) /\
+   lookup s nn = None /\ parent_key nn <> nn /\
+   exists pp pn, lookup s (parent_key nn) = Some pp /\ get_node s pp = Some pn)
+  \/
+  (lookup s dk = None /\ parent_key dk <> dk /\
+   (exists pp pn, lookup s (parent_key dk) = Some pp /\ get_node s pp = Some pn) /\
+   lookup s nn = None /\ parent_key nn = dk /\ dk <> nn).
+Proof. reflexivity. Qed.
+
+Lemma LF_meaning nn g s d mt :
+  LF nn g s d mt <->
+  lookup s nn = Some g /\
+  exists n, get_node s g = Some n /\ ndata n = d /\ ndir n = false /\
+            match mt with Some t => nmtime n = t | None => True end.
+Proof. reflexivity. Qed.
